@@ -131,15 +131,75 @@ def configs(tier):
     return out
 
 
+def l3_size_oracle(sc):
+    from harness import l3
+    r = sc.res
+    if r['host_exit'] is not None:
+        return 'a pool thread crashed the host: os._exit(%r)' % r['host_exit']
+    if r['errors']:
+        return 'exception in a pool/worker thread: %r' % (r['errors'],)
+    if r['status'] != 'done' or r['user'][0] != 'done':
+        sig = l3.stuck_signature(sc)
+        return ('scenario did not finish: %s %r; handlers run inside a '
+                'lock\'s __enter__: %r' % (r['status'], r['describe'],
+                                           r['sig_after_acquire']), sig)
+    chk = r.get('size_check')
+    if chk is not None:
+        size, members, alive = chk
+        if len(alive) != size:
+            return ('three supervision rounds after shrink/grow the pool has '
+                    '%d live workers (%d in its list), configured size %d'
+                    % (len(alive), len(members), size))
+    return None
+
+
+def l3_configs(tier):
+    T = tier == 'thorough'
+    b = 2 if not T else 3
+    out = []
+    for name, procs, script in (
+            ('shrink-vs-supervisor/2', 2, ['rounds:0', 'sleep:0.7', 'shrink:1',
+                                           'rounds:2', 'size', 'terminate']),
+            ('grow-vs-supervisor/1', 1, ['rounds:0', 'sleep:0.7', 'grow:1',
+                                         'rounds:3', 'size', 'terminate']),
+            ('shrink-then-grow/2', 2, ['rounds:0', 'sleep:0.7', 'shrink:1',
+                                       'grow:1', 'rounds:3', 'size',
+                                       'terminate'])):
+        out.append((dict(name=name, procs=procs, jobs=[], script=script,
+                         pool={}, oracle='harness.c09:l3_size_oracle',
+                         horizon=60.0, timer_deviation=True, budget_s=100,
+                         rr=True, linepoints=['shrink', 'grow']), b,
+                    60000 if not T else 150000))
+    return out
+
+
 def main(tier, seed, only=None):
     from harness import l2run
+
+    def extra(rep):
+        from vmc import explore
+        from harness import l3
+        cfgs = l3_configs(tier)
+        for (cfg, b, cap), d in zip(cfgs, l3.explore_split(cfgs)):
+            found = d.pop('found')
+            st = explore.Stats()
+            st.merge(d)
+            rep.stats('L3:' + cfg['name'], st, delay_bound=b,
+                      subtrees=d.get('subtrees'))
+            for msg, ch, sig, log in found:
+                rep.violation(msg + '\nconfig=%s' % cfg['name'],
+                              dict(harness='l3', config=cfg, choices=ch),
+                              signature=sig)
     return l2run.run('C09', tier, seed, configs(tier), [
         'that the real worker executes at most its quota and exits with the '
         'recycle status only after its results were consumed is the L1 '
         'obligation (C03); here the reference worker does so and the parent '
-        'side of the handshake is checked'], only)
+        'side of the handshake is checked'], only, extra)
 
 
 def replay(rp):
+    if rp.get('harness') == 'l3':
+        from harness import l3
+        return l3.replay(rp)
     from harness import l2run
     return l2run.replay('C09', rp, configs('thorough') + configs('quick'))
